@@ -82,7 +82,7 @@ def main():
         ],
         "checks": checks,
         "not_applicable": na,
-        "notes": "Static analysis only: no check executes code of /repo. Known findings: /verif/known_findings.json. Known limitations (behaviour-preserving rewrites that are still reported, fail-closed): DESIGN.md 13.26-13.30 and selftest/expect.json `known_limitations`.",
+        "notes": "Static analysis only: no check executes code of /repo. Known findings: /verif/known_findings.json. Known limitations (behaviour-preserving rewrites that are still reported, fail-closed): DESIGN.md 13.26-13.31 and selftest/expect.json `known_limitations`.",
     }
     with open(os.path.join(HERE, "MANIFEST.json"), "w") as f:
         json.dump(m, f, indent=1)
